@@ -55,6 +55,7 @@ THEOREMS = [P + n for n in [
     "generated_rename_invalidates_hash",
     # the real constructor loop refines ctorFlat; helper laws
     "find_three_outcomes", "find_raise_dependence", "store_misses_hides_ambiguity_witness", "generated_find_cache_policy_ok",
+    "generated_normalisation_inputs_in_every_key", "generated_role_is_read_and_keyed", "role_less_key_history_witness",
     "generated_schema_readers_are_model_operations", "match_depth_false_partial", "match_depth_false_nonuniform_witness",
     "copy_frame", "copy_independent", "copy_is_constructor", "empty_refines",
     "constructor_refines_flat", "full_refines_fresh_from_raw_constructor", "raw_constructor_answers_eq_incremental",
@@ -301,6 +302,29 @@ def schema_call_sites(tree):
     return out
 
 
+def role_reaches_normalize_identifier(tree):
+    """does the module function `normalize_name` hand its `is_table` parameter to `Dialect.normalize_identifier`
+    (via `identifier.meta["is_table"] = is_table`)?"""
+    fns = [n for n in tree.body if isinstance(n, ast.FunctionDef) and n.name == "normalize_name"]
+    if len(fns) != 1:
+        raise Shape("normalize_name not found")
+    fn = fns[0]
+    if "is_table" not in {a.arg for a in fn.args.args}:
+        return False
+    writes = calls = False
+    for node in ast.walk(fn):
+        if isinstance(node, ast.Assign) and isinstance(node.value, ast.Name) and node.value.id == "is_table":
+            for t in node.targets:
+                if isinstance(t, ast.Subscript) and isinstance(t.value, ast.Attribute) and t.value.attr == "meta" \
+                        and isinstance(t.slice, ast.Constant) and t.slice.value == "is_table":
+                    writes = True
+        if isinstance(node, ast.Call) and isinstance(node.func, ast.Attribute) and node.func.attr == "normalize_identifier":
+            calls = True
+    if not calls:
+        raise Shape("normalize_name no longer calls Dialect.normalize_identifier")
+    return writes
+
+
 def table_rename_keeps_hash(tree, cls):
     """does `_normalize_table` (or the helpers it renames parts with) write `node.args[...] = …` directly, i.e.
     outside the hash-invalidating set / replace API?"""
@@ -368,6 +392,7 @@ DEFAULT_LAYOUT = {
     "find": (["table", "ensure"], ["table", "raise", "ensure"]),
     "rename_keeps_hash": True,
     "serves_none": True,
+    "role_reaches": True,
     "call_sites": [("?", ["?"])],
 }
 
@@ -382,7 +407,8 @@ def translate(chk: Check) -> str:
     else:
         for key, fn in (("policy", eviction_policy), ("name", name_cache_layout), ("table", table_cache_layout), ("type", type_cache_layout),
                         ("find", find_cache_layout), ("rename_keeps_hash", lambda c: table_rename_keeps_hash(tree, c)),
-                        ("serves_none", find_serves_cached_none), ("call_sites", lambda c: schema_call_sites(tree))):
+                        ("serves_none", find_serves_cached_none), ("call_sites", lambda c: schema_call_sites(tree)),
+                        ("role_reaches", lambda c: role_reaches_normalize_identifier(tree))):
             try:
                 lay[key] = fn(cls)
             except Shape as e:
@@ -419,6 +445,7 @@ def translate(chk: Check) -> str:
         f"def findCacheReads : List FField := {ll(lay['find'][1])}\n"
         f"def tableRenameKeepsHash : Bool := {'true' if lay['rename_keeps_hash'] else 'false'}\n"
         f"def findServesCachedNone : Bool := {'true' if lay['serves_none'] else 'false'}\n"
+        f"def roleReachesNormalizeIdentifier : Bool := {'true' if lay['role_reaches'] else 'false'}\n"
         f"def schemaCallSites : List (String × List SchemaMethod) := [{sites}]\n"
         "end SqlglotModel.Generated.C18\n"
     )
@@ -802,6 +829,30 @@ def rand_initial(rng, depth, strategy_fn):
     return flat
 
 
+MIXED = ["Tbl", "Ds", "Foo", "Cat"]
+
+
+def coinciding_initial(rng, depth):
+    """raw mapping whose column names are spelled like its own mixed-case table / db / catalog keys (role-sensitive
+    dialects fold the column but keep the table part: a role-less cache key replays the wrong one)"""
+    flat, seen = [], set()
+    for _ in range(rng.choice([1, 2])):
+        parts = [[rng.choice(MIXED), False] for _ in range(depth)]
+        key = tuple(p.lower() for p, _ in parts)
+        if key in seen:
+            continue
+        seen.add(key)
+        names = list(dict.fromkeys([p for p, _ in parts if rng.random() < 0.8] + [rng.choice(["x", "Ab"])]))
+        cols, cseen = [], set()
+        for c in names:
+            if c.lower() not in cseen:
+                cseen.add(c.lower())
+                cols.append([[c, False], rng.choice(TYPES)])
+        rng.shuffle(cols)
+        flat.append([parts, cols])
+    return flat
+
+
 def raw_initial(rng, depth, quoted_ok=True):
     """a raw (un-normalized) initial mapping without case-fold collisions: [[[[name, quoted]…], [[[col, quoted], ty]…]]…]"""
     flat, seen = [], set()
@@ -1005,6 +1056,7 @@ def histories(chk: Check, dialects):
         {"op": "names", "table": [["Foo", False]], "as_str": True},
         {"op": "names", "table": [["foo", False]], "as_str": False},
     ], True, None))
+    out.append(WITNESS_ROLE)
     special = [d for d in dialects if d and dia_of(d)["ts"]] + [SETTINGS_DIALECT]
     for _ in range(n_random):
         r = rng.random()
@@ -1020,6 +1072,8 @@ def histories(chk: Check, dialects):
             if raw:
                 # without normalisation the raw keys are kept verbatim (quote characters included): unquoted only
                 init = raw_initial(rng, depth, quoted_ok=norm)
+                if norm and dia_of(d)["ts"] and rng.random() < 0.6:
+                    init = coinciding_initial(rng, depth)
                 if norm and init and rng.random() < 0.06:
                     # malformed raw mappings: a table without columns / tables at different depths (constructor errors)
                     if rng.random() < 0.5:
@@ -1289,6 +1343,11 @@ WITNESS_ISTABLE = ("bigquery", True, [[[["Foo", False]], [[["Foo", False], "INT"
     {"op": "names", "table": [["Foo", False]], "as_str": True},
     {"op": "has", "table": [["Foo", False]], "col": ["Foo", False], "col_str": True, "as_str": True},
 ], True, None)
+# seeded C10-7: a column spelled like its mixed-case table key under BigQuery (Properties: role_less_key_history_witness)
+WITNESS_ROLE = ("bigquery", True, [[[["ds", False], ["Tbl", False]], [[["Tbl", False], "INT"], [["x", False], "INT"]]]], [
+    {"op": "names", "table": [["ds", False], ["Tbl", False]], "as_str": True},
+    {"op": "has", "table": [["ds", False], ["Tbl", False]], "col": ["tbl", False], "col_str": True, "as_str": True},
+], True, None)
 WITNESS_QUOTED = ("postgres", True, [[["t"], [["Foo", "INT"], ["foo", "TEXT"]]]], [
     {"op": "type", "table": [["t", False]], "col": ["Foo", True], "col_str": False, "as_str": True},
     {"op": "type", "table": [["t", False]], "col": ["Foo", False], "col_str": False, "as_str": True},
@@ -1301,7 +1360,7 @@ def search(chk: Check, hints: list, budget_s: float) -> None:
     t0 = time.time()
     rng = chk.rng
     dialects = all_dialects()
-    cands = [WITNESS, WITNESS2, WITNESS_TYPE, WITNESS_ISTABLE, WITNESS_QUOTED] + list(hints)
+    cands = [WITNESS, WITNESS2, WITNESS_TYPE, WITNESS_ISTABLE, WITNESS_QUOTED, WITNESS_ROLE] + list(hints)
     tried = found = 0
 
     def consider(h):
@@ -1341,7 +1400,9 @@ def search(chk: Check, hints: list, budget_s: float) -> None:
         SHARE_NAMES[0] = rng.random() < 0.5
         raw = rng.random() < 0.5
         try:
-            if raw:
+            if raw and norm and d == "bigquery" and rng.random() < 0.5:
+                init = coinciding_initial(rng, depth)
+            elif raw:
                 init = raw_initial(rng, depth, quoted_ok=norm and rng.random() < 0.5)
             else:
                 init = rand_initial(rng, depth, fold_fn(d))
